@@ -328,6 +328,11 @@ impl<'a, 'tcx> Dumper<'a, 'tcx> {
             out.push_str("null");
             return;
         }
+        // a named constant (`sym::macro_use`) whose value has no printable form is identified by its path
+        let named = match c.const_ {
+            Const::Unevaluated(uv, _) if uv.promoted.is_none() => Some(self.cx.path(uv.def)),
+            _ => None,
+        };
         let typing_env = ty::TypingEnv::post_analysis(tcx, self.did);
         let val = match c.const_.eval(tcx, typing_env, c.span) {
             Ok(v) => v,
@@ -336,7 +341,12 @@ impl<'a, 'tcx> Dumper<'a, 'tcx> {
                 return;
             }
         };
-        self.const_value(val, t, out);
+        let mut tmp = String::new();
+        self.const_value(val, t, &mut tmp);
+        match named {
+            Some(n) if tmp == "null" => out.push_str(&format!("{{\"named\":{}}}", json::s(&n))),
+            _ => out.push_str(&tmp),
+        }
     }
 
     fn const_value(&self, val: ConstValue<'tcx>, t: Ty<'tcx>, out: &mut String) {
